@@ -147,7 +147,7 @@ func RefScalar(k Kind, base int, s string) (interface{}, Verdict) {
 		return Upper("U:" + s), Accept
 	case KTri:
 		switch s {
-		case "on":
+		case "on", "":
 			return Tri(true), Accept
 		case "off":
 			return Tri(false), Accept
